@@ -113,7 +113,10 @@ def grep_gate():
 def coq_make(targets):
     """Incremental full .vo build of the given targets (and everything they need)."""
     with Lock("coq"):
-        if not os.path.exists(os.path.join(COQ, "Makefile")):
+        # translators: the generated tables are rebuilt from /repo/src before every build
+        sh(["python3", os.path.join(VERIF, "tools", "gen_isfinished.py"), REPO], check=True)
+        mk = os.path.join(COQ, "Makefile")
+        if not os.path.exists(mk) or os.path.getmtime(mk) < os.path.getmtime(os.path.join(COQ, "_CoqProject")):
             sh(["coq_makefile", "-f", "_CoqProject", "-o", "Makefile"], cwd=COQ, check=True)
         rc, out = sh(["timeout", "1500", "make", "-j%d" % NPROC] + targets, cwd=COQ)
         if rc != 0:
